@@ -25,6 +25,10 @@ open Repid Redis
 
 /-! ### C15 — the oldest matching waiting message is taken first -/
 
+/-- the fetch window is not empty (`PREFETCH_AMOUNT`, extracted from the live class on every run: with 0 the consumer's
+    window loop would never advance) -/
+theorem prefetch_pos : 0 < prefetch := by decide
+
 theorem fetchList_oldest (topics : List String) : ∀ (fuel : Nat) (rev : List String), rev.length < fuel →
     fetchList topics fuel rev = rev.find? (matchesTopics topics) := by
   intro fuel
@@ -42,7 +46,8 @@ theorem fetchList_oldest (topics : List String) : ∀ (fuel : Nat) (rev : List S
         rw [hsplit, List.find?_append, hf]; rfl
       | none =>
         have hlen : ((x :: rest).drop prefetch).length < fuel := by
-          simp only [List.length_drop, List.length_cons, prefetch] at h ⊢
+          have hp := prefetch_pos
+          simp only [List.length_drop, List.length_cons] at h ⊢
           omega
         simp only []
         rw [ih _ hlen]
